@@ -67,6 +67,8 @@ def scan_eff(eff, text, bad=None, holes=None):
                 under += c
             last = c
         elif c == ",":
+            if bad is None and last == "k":
+                bad = "`,` directly after a keyword that needs an operand (writing `%s`): an empty declarator" % text[:40]
             if bad is None and stack and stack[-1] == "(" and last in (",", "("):
                 bad = "`%s,` inside parentheses: an empty argument (writing `%s`)" % (last, text[:40])
             if bad is None and stack and stack[-1] == "{" and last in (",", "{"):
@@ -83,7 +85,12 @@ def scan_eff(eff, text, bad=None, holes=None):
             else:
                 last = "x"
         else:
-            last = "x" if last == "w" else last
+            if last == "w":
+                # a blank after a word: `var `, `return ` .. expect an operand next (a `,` there is an empty declarator / operand)
+                j = i
+                while j > 0 and (text[j - 1].isalnum() or text[j - 1] in "_$"):
+                    j -= 1
+                last = "k" if text[j:i] in ("var", "let", "const", "return", "typeof", "new", "void", "in", "instanceof", "case") else "x"
         i += 1
     return (under, stack, quote, last), bad
 
